@@ -52,7 +52,8 @@ func (tag *Tag) reqproc() {
 		case r := <-tag.respchan:
 			rc := r.Rc
 			fid := r.fid
-			err := r.Rc.Type == Rerror
+			/* no response at all if the connection failed */
+			err := r.Rc == nil || r.Rc.Type == Rerror
 
 			switch r.Tc.Type {
 			case Tauth:
